@@ -237,6 +237,10 @@ StringDictionaryHASHHF::StringDictionaryHASHHF(IteratorDictString *it, uint len,
   delete it;
   delete[] tmp;
 
+  // Room for the three closing bytes
+  while ((bytesStrings + 3) > reservedStrings)
+    reservedStrings = Reallocate(&textStrings, reservedStrings);
+
   textStrings[bytesStrings] = 0;
   bytesStrings++;
   textStrings[bytesStrings] = 0;
